@@ -43,6 +43,8 @@ type C05Case struct {
 	RemoveOld     int64   `json:"remove_old_ns"`
 	Ops           []C05Op `json:"ops"`
 	ExcludedEmpty int     `json:"excluded_empty,omitempty"`
+	// Force: storage_force_snapshot_interval (0 = off); used by the C10 loop check
+	Force int64 `json:"force_ns,omitempty"`
 }
 
 type c05Fleet struct {
@@ -181,6 +183,7 @@ func (f *c05Fleet) conf(i int) (config.Config, config.LMDB) {
 	conf.MemoryDecompressedSnapshots = 4
 	conf.MemoryDownloadedSnapshots = 4
 	conf.Storage.Cleanup = config.Cleanup{Enabled: true, Interval: time.Hour, MustKeepInterval: time.Duration(f.c.MustKeep), RemoveOldInstancesInterval: time.Duration(f.c.RemoveOld)}
+	conf.StorageForceSnapshotInterval = time.Duration(f.c.Force)
 	return conf, config.LMDB{SchemaTracksChanges: f.c.Native}
 }
 
